@@ -283,6 +283,14 @@ template <sz N> void apply_by_value()
   check(rr, 1, "apply(g, g): r[p] = f(g[p], g[p])");
   check_intact<N>(g1, 1, s1, "apply(g, g): the grid is unchanged");
   verif_assert(!used_after_move, "apply(lvalues): no moved-from cell was used");
+  {
+    // rvalue first, lvalue second: the value category of the FIRST grid says nothing about the others
+    G<N> tmp{make<N>(1, s1)};
+    G<N> const rl{grid::apply(f, std::move(tmp), g2)};
+    check(rl, 2, "apply(rvalue, lvalue): r[p] = f(g1[p], g2[p]) for equal sizes, empty otherwise");
+    check_intact<N>(g2, 2, s2, "apply(rvalue, lvalue): the lvalue grid is unchanged");
+    verif_assert(!used_after_move, "apply(rvalue, lvalue): no moved-from cell was used");
+  }
   G<N> const rm{grid::apply(f, g1, std::move(g2))};
   check(rm, 2, "apply(lvalue, rvalue): r[p] = f(g1[p], g2[p]) for equal sizes, empty otherwise");
   check_intact<N>(g1, 1, s1, "apply(lvalue, rvalue): the lvalue grid is unchanged");
